@@ -61,6 +61,10 @@ type Ctl struct {
 	Host     string
 	// fault plan
 	Faults []Fault
+	// Root is the private directory tree of the run; see guard.go
+	Root string
+	devs map[string]*vdev
+	tmpCounter int
 
 	// recorded
 	Ops       []Op
